@@ -32,6 +32,8 @@ def templates(tier, seed):
         ts.append(Template(f"F/ab/coerce_a_int/N={N}", t_lazy, ("frame", N, dict(arr=["a", "b"], coerce_a_int=True))))
         ts.append(Template(f"F/ab/coerce_a_int+index_coerce_float/N={N}", t_lazy, ("frame", N, dict(arr=["a", "b"], coerce_a_int=True, index_coerce_float=True))))
         ts.append(Template(f"F/ab/index_coerce_float/N={N}", t_lazy, ("frame", N, dict(arr=["a", "b"], index_coerce_float=True))))
+    for N in Ns:
+        ts.append(Template(f"S/float/ge/dup_labels/N={N}", t_lazy, ("series", N, dict(kind="float", check="ge", dup_labels=True))))
     # several jointly unique sets: the duplicates of every violated set are reported (three rows: duplicated in a, not in b)
     for rd in (("exclude_first",) if tier == "quick" else ("all", "exclude_first", "exclude_last")):
         ts.append(Template(f"F/unique_sets/rd={rd}/N=3", t_lazy, ("frame", 3, dict(arr=["a", "b"], unique=[["a"], ["b"]], rd=rd))))
